@@ -269,7 +269,7 @@ def run_mutant(w, m):
         res["checks"] = {}
         status = "survived"
         for c in order:
-            r = sh(f"ulimit -v 24000000; ./check {c} --tier quick", cwd=f"{w}/verif", timeout=900)
+            r = sh(f"ulimit -v 24000000; VERIF_THREADS=4 ./check {c} --tier quick", cwd=f"{w}/verif", timeout=900)
             viol = [l for l in r.stdout.splitlines() if l.startswith("VIOLATION")]
             why = [l for l in r.stdout.splitlines() if l.startswith("failure in") or l.startswith("regress case") or l.startswith("INCONCLUSIVE")]
             res["checks"][c] = r.returncode
